@@ -137,7 +137,7 @@ def run(env, rep):
                 continue
             db = body_by_pretty(prog, parsers[0])
             oks = grammar.ok_paths(grammar.reads(env, db.key, all_local_calls=True, inline=True, inline_pred=(lambda cb, t, _u={tg for tgs in disp.values() for k_, tg in tgs if k_ == 'call'} | {'deserialization::read_next_value', 'deserialization::parse_object_property', 'deserialization::parse_object'}: cb.pretty not in _u)))
-            dreads = amf0.canon_loops({amf0.norm_read_path(p) for p in oks})
+            dreads = amf0.canon_loops({amf0.norm_read_path(p, structure_only=(variant not in ("Boolean", "Object"))) for p in oks})
             cons = {t[1] for p in oks for t in amf0.returns_of(p)}
             want_reads = set()
             for a in alts:
